@@ -58,7 +58,7 @@ pub const STR: u64 = 35;
 pub const EQUAL: u64 = 36;
 pub const K: u64 = 37;
 
-fn alphabet() -> Vec<(TokenKind, &'static str)> {
+pub fn alphabet() -> Vec<(TokenKind, &'static str)> {
     vec![
         (TokenKind::Number, "1"),
         (TokenKind::Identifier, "x"),
@@ -101,7 +101,7 @@ fn alphabet() -> Vec<(TokenKind, &'static str)> {
 }
 
 /// operator subset used for "o" positions (everything that is not an operand or a bracket)
-const OPS: [u64; 23] = [
+pub const OPS: [u64; 23] = [
     PLUS, MINUS, MUL, DIV, POW, PER, ARROW, TO, PIPE, UEXP, BANG, EQEQ, NEQ, LT, GT, LE, GE, AND, OR, IF, THEN,
     ELSE, PERIOD,
 ];
@@ -118,7 +118,7 @@ fn sp(i: usize) -> Span {
 /// symbolic token kinds ARE these bytes (no table indirection in the solver queries)
 static mut TAGS: [u64; K as usize] = [0; K as usize];
 
-fn init_tags() {
+pub fn init_tags() {
     assert!(std::mem::size_of::<TokenKind>() == 2);
     for (i, (k, _)) in alphabet().iter().enumerate() {
         let b: [u8; 2] = unsafe { std::mem::transmute_copy(k) };
@@ -127,12 +127,12 @@ fn init_tags() {
 }
 
 #[inline(always)]
-fn tag(i: u64) -> u64 {
+pub fn tag(i: u64) -> u64 {
     unsafe { TAGS[i as usize] }
 }
 
 /// tokens for the (possibly symbolic) kind tags `ks`, followed by Eof
-fn make_tokens(ks: &[u64]) -> Vec<Token<'static>> {
+pub fn make_tokens(ks: &[u64]) -> Vec<Token<'static>> {
     let a = alphabet();
     let lex = |i: u64| (a[i as usize].1.as_ptr() as usize, a[i as usize].1.len());
     let (xp, xl) = lex(ID);
